@@ -850,6 +850,7 @@ func yHasAnchor(n *YN) bool {
 // completely finished node, and some later string-keyed maps get one `<<: *anchor` merge of an
 // earlier map with disjoint keys. Returns (aliases, merges) added.
 func C06AddAliases(r *rand.Rand, root *YN, merges bool) (int, int) {
+	mergeTargets := map[*YN]bool{}
 	na, nm, names := 0, 0, 0
 	name := func(t *YN) {
 		if t.Anchor == "" {
@@ -884,7 +885,9 @@ func C06AddAliases(r *rand.Rand, root *YN, merges bool) (int, int) {
 			}
 			var cands []ySlot
 			for _, m := range sl {
-				if m.start <= t.end || m.node.Kind != YMap || m.node.Merge != nil {
+				if m.start <= t.end || m.node.Kind != YMap || m.node.Merge != nil || mergeTargets[m.node] {
+					// (a map that others already merge gets no merge of its own: what it would bring in could clash
+					// with THEIR own keys, and which side wins there is C13's business, not this check's)
 					continue
 				}
 				disjoint := true
@@ -902,6 +905,7 @@ func C06AddAliases(r *rand.Rand, root *YN, merges bool) (int, int) {
 			}
 			m := cands[r.IntN(len(cands))].node
 			name(t.node)
+			mergeTargets[t.node] = true
 			pos := r.IntN(len(m.Keys) + 1)
 			mk := &YN{Kind: YScalar, Val: ref.StrV("<<"), Text: "<<"}
 			al := &YN{Kind: YAlias, Target: t.node}
